@@ -7,7 +7,7 @@ use hifitime::{Duration, TimeUnits};
 use proptest::prelude::*;
 use serde::{Deserialize, Serialize};
 
-pub const RULE: &str = "out: generated durations over the whole range (and ordered adjacent / century-boundary pairs) read as seconds and as each of the nine units, compared with the exact rational count/unit in double-double arithmetic (tolerance 4 ulp of the value, or of one second's worth for smaller values); in: generated finite f64 (raw bit patterns incl. subnormals, integers +- 1 ulp, decimal fractions, powers of two and ten, values at the i64/i128/saturation thresholds) x nine units through every constructor form, compared with clamp(trunc(x*unit)) where * is one IEEE multiplication, and with the exact product when that is an integer below 2^53; +-inf and NaN for the no-panic clause; Duration x f64: durations up to 10 000 years x finite f64, compared with the exact product (count x integer significand, shifted) within 1 ns + 4*2^-52 relative; non-trivial = |x*unit| >= 2^53 ns, x within 1 ulp of an integer, subnormal/huge, negative, or (out) |count| > 2^53 ns; distinct = distinct case tuples (hash set, capped: lower bound)";
+pub const RULE: &str = "out: generated durations over the whole range (and ordered adjacent / century-boundary pairs) read as seconds and as each of the nine units, compared with the exact rational count/unit in double-double arithmetic (tolerance 4 ulp of the value, or of one second's worth for smaller values); in: generated finite f64 (raw bit patterns incl. subnormals, integers +- 1 ulp, decimal fractions, powers of two and ten, values at the i64/i128/saturation thresholds) x nine units through every constructor form, compared with clamp(trunc(x*unit)) where * is one IEEE multiplication, and with the exact product when that is an integer below 2^53; +-inf and NaN for the no-panic clause; Duration x f64: durations up to 10 000 years x finite f64, compared with the exact product (count x integer significand x 2^e by limb-wise multiplication, truncated) within 1 ns + 4*2^-52 relative; non-trivial = |x*unit| >= 2^53 ns, x within 1 ulp of an integer, subnormal/huge, negative, or (out) |count| > 2^53 ns; distinct = distinct case tuples (hash set, capped: lower bound)";
 
 pub const ASSUMPTIONS: &[&str] = &[
     "'a few units in the last place' is taken as 4 ulp; all nine unit factors are exactly representable in f64, so the real product rounded to nearest is one IEEE multiplication",
@@ -217,31 +217,13 @@ fn mulf_strategy() -> BS<MulF> {
     (count_human(), q, 0u8..2).prop_map(|(d, q, form)| MulF { d, q, form }).boxed()
 }
 
-/// floor of count * q, exactly (None if |value| certainly exceeds 2^120)
-fn exact_floor(cnt: i128, q: f64) -> Option<i128> {
-    let (m, e) = f64_parts(q);
-    if m == 0 || cnt == 0 {
-        return Some(0);
-    }
-    let prod = cnt.checked_mul(m as i128)?; // |cnt| < 2^69, |m| < 2^53
-    if e >= 0 {
-        if e > 60 {
-            return None;
-        }
-        prod.checked_mul(1i128 << e)
-    } else {
-        let s = (-e) as u32;
-        Some(if s >= 127 { if prod < 0 { -1 } else { 0 } } else { prod >> s })
-    }
-}
-
 fn mulf_oracle(c: &MulF) -> Verdict {
     let q = c.q.v();
     let d = mk(c.d);
     let cd = count(d);
     let r = if c.form == 0 { lib!(d * q) } else { lib!(q * d) };
     ensure!(canonical(r), "non-canonical result");
-    let want = match exact_floor(cd, q) {
+    let want = match mul_f64_trunc(cd, q) {
         Some(v) => v,
         None => {
             // certainly beyond the representable range
